@@ -264,6 +264,8 @@ def main(ctx: Ctx) -> int:
         # elements whose atomic WEIGHT is far from a whole number (Cl 35.45, Mg 24.305): the mass number of a molecule is the SUM of the
         # mass numbers of its atoms (Cl2 70, MgCl 59), not its rounded weight (71, 60)
         ({"reactions": [(["H", "Cl"], ["HCl"]), (["Cl", "Cl"], ["Cl2"]), (["Mg", "Cl"], ["MgCl"]), (["H", "H"], ["H2"])], "required": []}, "fractional-weights"),
+        # required species that bring a NEW element, declared after the network was built and read
+        ({"reactions": [(["H", "H"], ["H2"]), (["C", "H"], ["CH"])], "required": ["He", "He+"]}, "late-required"),
     ]
     randoms = [gen_network(rng) for _ in range(nstat)]
     O.POOL.update({"GRAIN0": ({"GRAIN": 1}, 0), "GRAIN0-": ({"GRAIN": 1}, -1), "CN": ({"C": 1, "N": 1}, 0), "HCN": ({"H": 1, "C": 1, "N": 1}, 0),
@@ -285,6 +287,18 @@ def main(ctx: Ctx) -> int:
                 raise
             except Exception as e:   # noqa   (the generator itself refused a network it rendered a moment ago for the static tables)
                 ctx.violation(f"C16|Render|{type(e).__name__}|{kind},whole project", f"rendering the whole project raised {type(e).__name__}: {e}", {"desc": desc})
+        if (kind == "random" and k % 2 == 1 and desc["required"]) or kind == "late-required":
+            # the required species are declared AFTER the network was built and its elements and species were read (a user who finds out
+            # that one more species is needed): the emitted tables are those of the network the constructor would have made
+            try:
+                net3 = O.build_network(dict(desc, required=[]))
+                _ = [e.name for e in net3.elements], [x.name for x in net3.species]
+                net3.required_species = list(desc["required"])
+                traces.append(build_trace_static(ctx, len(traces) + 1, dict(desc, kind="random", note="required species declared after the elements were read"),
+                                                 net3, 60000 + k))
+                cov["rendered_after_late_required_species"] = cov.get("rendered_after_late_required_species", 0) + 1
+            except Exception as e:   # noqa
+                ctx.violation(f"C16|Render|{type(e).__name__}|late-required", f"{type(e).__name__}: {e}", {"desc": desc})
         if kind == "random" and k % 2 == 0:
             # a network object, rendered once, then remove_reaction takes an element out of it entirely: the emitted tables must be those
             # of what is left.  (The element's atom must itself react, so that nothing keeps the element alive.)
